@@ -18,7 +18,20 @@
 //!   range index = Rust panic = the function is skipped).  Indices / shift amounts that stay symbolic
 //!   produce a proof obligation (`limb_meta.json`, proved in LimbEquiv.lean).
 //! * `while` loops become fuel-recursive auxiliary definitions returning `Option` (`none` = still looping).
-//! * `&mut self` methods return the new `self` (first component), then `&mut` parameters, then the result.
+//! * `&mut self` methods return the new `self` (first component), then `&mut` parameters, then the result; a function
+//!   containing `debug_assert!` additionally returns the conjunction of the asserted conditions (as the model does).
+//! * `l && r` / `l || r` whose right operand has effects is lowered to an `if`; `q.is_some() && ..` / `q.is_none() || ..`
+//!   on an `Option` variable become a `match` inside which `q.unwrap()` / `q.as_mut().unwrap()` denote the payload.
+//! * `Result<T, Error>` is `Option T` (the model does not distinguish the errors); any other `unwrap()` is a possible
+//!   panic: the function returns `Outcome` (`Outcome.bind`), except in the functions listed in `unwrap_total`, where
+//!   it is a total extraction plus an `isSome` proof obligation.  `return None` inside a loop / `match` of a function
+//!   returning `Option` makes the enclosing block yield `none` (`Option.bind`).
+//! * byte slices are `List UInt8`: `s.len()`, `&s[i..]` (`List.drop`), `BigEndian::read_u64` (`beVal` of the first
+//!   8 bytes), `to_bytes_be` (`beBytes`), `[a, b].concat()`, `copy_from_slice` (equal lengths = obligation).
+//! * dynamic `for` loops (`0..n`, `(0..n).rev()`, `s.chars()`, an iterator-valued call) are `List.foldl` of a named body
+//!   definition `<fn>.forN` over the variables the body assigns (in declaration order); `BitIterator` is its state
+//!   `(int, n)` and an iterator is the list it yields (`iterList next (n + 1) state`); `rng: &mut R` is a script of
+//!   drawn u64s; `I: Into<U256>` of `FieldElement::pow` is monomorphised at the field type.
 //! Anything outside the subset: the function is skipped and reported, never mistranslated.
 use proc_macro2::{Delimiter, Group, Ident as PIdent, Span, TokenStream, TokenTree};
 use quote::quote;
@@ -29,14 +42,14 @@ use syn::*;
 type R<T> = std::result::Result<T, String>;
 const U64MAX: u128 = u64::MAX as u128;
 
-const LEAN_KEYWORDS: &[&str] = &["by", "at", "from", "end", "fun", "do", "then", "else", "in", "have", "show", "with", "open", "def", "where", "variable", "instance", "class", "structure", "theorem", "match", "if", "let", "mut", "for", "return", "deriving", "namespace", "section", "local", "prefix", "infix", "notation", "macro", "syntax", "universe", "import", "export", "private", "protected", "abbrev", "example", "axiom", "opaque", "set_option", "using", "calc", "Type", "Prop", "Sort", "P"];
+const LEAN_KEYWORDS: &[&str] = &["by", "at", "from", "end", "fun", "do", "then", "else", "in", "have", "show", "with", "open", "def", "where", "variable", "instance", "class", "structure", "theorem", "match", "if", "let", "mut", "for", "return", "deriving", "namespace", "section", "local", "prefix", "infix", "notation", "macro", "syntax", "universe", "import", "export", "private", "protected", "abbrev", "example", "axiom", "opaque", "set_option", "using", "calc", "Type", "Prop", "Sort", "P", "to"];
 
 fn ident(s: &str) -> String {
     if LEAN_KEYWORDS.contains(&s) { format!("{}_", s) } else { s.to_string() }
 }
 
 #[derive(Clone, Debug, PartialEq)]
-enum Ty { U64, U128, Usize, U32, Bool, U256, B256, U512, B512, Limbs(usize), MulBuf, Fp, FpArr, Tuple(Vec<Ty>), Opt(Box<Ty>), Unit, Lit }
+enum Ty { U64, U128, Usize, U32, U8, Bool, U256, B256, U512, B512, Limbs(usize), MulBuf, Fp, FpArr, Tuple(Vec<Ty>), Opt(Box<Ty>), Unit, Lit, Bytes, Char, Chars, BoolList, Rng, BitIter }
 
 impl Ty {
     fn is_int(&self) -> bool { matches!(self, Ty::U64 | Ty::U128 | Ty::Usize | Ty::U32 | Ty::Lit) }
@@ -50,7 +63,13 @@ impl Ty {
         match self {
             Ty::U64 | Ty::U128 | Ty::Usize | Ty::U32 | Ty::Lit | Ty::U256 | Ty::B256 | Ty::U512 | Ty::B512 | Ty::Fp => "Nat".into(),
             Ty::Bool => "Bool".into(),
-            Ty::Limbs(_) | Ty::MulBuf | Ty::FpArr => "List Nat".into(),
+            Ty::U8 => "UInt8".into(),
+            Ty::Char => "Char".into(),
+            Ty::Chars => "List Char".into(),
+            Ty::Bytes => "List UInt8".into(),
+            Ty::BoolList => "List Bool".into(),
+            Ty::BitIter => "(Nat × Nat)".into(),
+            Ty::Limbs(_) | Ty::MulBuf | Ty::FpArr | Ty::Rng => "List Nat".into(),
             Ty::Tuple(v) => format!("({})", v.iter().map(|t| t.lean()).collect::<Vec<_>>().join(" × ")),
             Ty::Opt(t) => format!("Option {}", paren(&t.lean())),
             Ty::Unit => "Unit".into(),
@@ -74,6 +93,13 @@ fn indent(s: &str, n: usize) -> String {
     s.lines().map(|l| format!("{}{}", pad, l)).collect::<Vec<_>>().join("\n")
 }
 fn tuple_of(v: &[String]) -> String { if v.len() == 1 { v[0].clone() } else { format!("({})", v.join(", ")) } }
+/// effect of a block: None = pure, Some(false) = may run out of fuel (`Option`), Some(true) = may panic (`Outcome`)
+fn eff_of(sts: &[St]) -> R<Option<bool>> {
+    let mut e = None;
+    for s in sts { if matches!(s, St::Abort) { match e { None => e = Some(false), Some(true) => return Err("fuel and panic effects in the same block".into()), _ => {} } } if let St::Bind(_, _, k) = s { match e { None => e = Some(*k), Some(x) if x != *k => return Err("fuel and panic effects in the same block".into()), _ => {} } } }
+    Ok(e)
+}
+fn eff_ret(e: Option<bool>, s: &str) -> String { match e { None => s.to_string(), Some(false) => format!("some {}", paren(s)), Some(true) => format!("Outcome.ok {}", paren(s)) } }
 fn short(e: &impl quote::ToTokens) -> String { quote!(#e).to_string().chars().take(90).collect() }
 
 #[derive(Clone, Debug)]
@@ -89,11 +115,11 @@ enum Kind { Plain, Const(u128), ZipIdx(BTreeMap<String, String>) }
 #[derive(Clone, Debug)]
 struct Var { ty: Ty, kind: Kind, bound: Option<u128>, view_of: Option<(String, bool)>, mutable: bool, id: usize, kc: Option<u128> }
 
-#[derive(Default)]
+#[derive(Default, Clone)]
 struct Scope { vars: HashMap<String, Var>, mutated: BTreeSet<String> }
 
 #[derive(Clone, Debug)]
-enum St { Let(String, String), Bind(String, String), Comment(String) }
+enum St { Let(String, String), Bind(String, String, bool), Comment(String), Abort }
 
 fn render(sts: &[St], fin: &str) -> String {
     let mut out = String::new();
@@ -107,13 +133,16 @@ fn render(sts: &[St], fin: &str) -> String {
                 else { writeln!(out, "{}let {} := {}", pad, p, e).unwrap(); }
             }
             // a call that may run out of fuel: `Option.bind`
-            St::Bind(p, e) => {
-                if e.contains('\n') { writeln!(out, "{}Option.bind (\n{}) (fun {} =>", pad, indent(e, ind + 2), p).unwrap(); }
-                else { writeln!(out, "{}Option.bind ({}) (fun {} =>", pad, e, p).unwrap(); }
+            St::Bind(p, e, panic) => {
+                let m = if *panic { "Outcome.bind" } else { "Option.bind" };
+                if e.contains('\n') { writeln!(out, "{}{} (\n{}) (fun {} =>", pad, m, indent(e, ind + 2), p).unwrap(); }
+                else { writeln!(out, "{}{} ({}) (fun {} =>", pad, m, e, p).unwrap(); }
                 ind += 2;
                 closes += 1;
             }
             St::Comment(c) => writeln!(out, "{}-- {}", pad, c).unwrap(),
+            // `return None` inside a block of a function returning Option: the block yields `none`
+            St::Abort => { out.push_str(&format!("{}none", pad)); out.push_str(&")".repeat(closes)); return out; }
         }
     }
     out.push_str(&indent(fin, ind));
@@ -133,6 +162,8 @@ struct FnSig {
     params: Vec<(String, Ty, bool)>, // (name, type, is `&mut`)
     ret: Ty,
     partial: bool,                // returns Option because of a while loop / fuel
+    panics: bool,                 // returns Outcome because of an `unwrap()`
+    has_dbg: bool,                // contains debug_assert!: returns the conjunction of the asserted conditions as a last component
     fuel_param: bool,             // takes an explicit leading fuel argument
     takes_p: bool,                // takes the MontParams first
     translated: bool,             // Gen definition exists (else `lean` names the model function)
@@ -144,9 +175,10 @@ pub struct Obligation { pub name: String, pub binders: String, pub hyps: Vec<Str
 pub struct Global { sigs: HashMap<(String, String), FnSig> }
 
 fn tykey(t: &Ty) -> &'static str {
-    match t { Ty::U256 => "U256", Ty::B256 => "B256", Ty::Fp => "Fp", Ty::U512 => "U512", Ty::B512 => "B512", _ => "" }
+    match t { Ty::U256 => "U256", Ty::B256 => "B256", Ty::Fp => "Fp", Ty::U512 => "U512", Ty::B512 => "B512", Ty::BitIter => "BitIterator", _ => "" }
 }
 
+#[derive(Clone)]
 struct Fx<'a> {
     g: &'a Global,
     key: String,
@@ -161,6 +193,17 @@ struct Fx<'a> {
     p_arg: Option<String>,
     in_macro: bool,
     partial: bool,
+    panics: bool,
+    dbg: Vec<String>,
+    in_assert: bool,
+    assert_flags: Vec<String>,
+    unwrapped: HashMap<String, String>,
+    payload_mutated: BTreeSet<String>,
+    pre: Vec<(*const Expr, Val)>,
+    for_count: usize,
+    generic_tys: Option<HashMap<String, Ty>>,
+    retnone: bool,
+    has_dbg: bool,
     facts: Vec<(usize, String)>,
     conds: Vec<(usize, String)>,
     obligations: Vec<Obligation>,
@@ -201,6 +244,7 @@ impl<'a> Fx<'a> {
     fn rebind_mark(&mut self, n: &str, writeback: bool) -> R<()> {
         let (d, _) = self.lookup(n).ok_or_else(|| format!("assignment to unknown variable {}", n))?;
         for sc in self.scopes.iter_mut().skip(d + 1) { sc.mutated.insert(n.to_string()); }
+        if self.unwrapped.values().any(|v| v == n) { self.payload_mutated.insert(n.to_string()); }
         self.forget(n);
         if !writeback {
             for sc in self.scopes.iter_mut() {
@@ -262,7 +306,7 @@ impl<'a> Fx<'a> {
         r?;
         Ok((sts, sc.mutated))
     }
-    fn is_partial(sts: &[St]) -> bool { sts.iter().any(|s| matches!(s, St::Bind(..))) }
+    fn is_partial(sts: &[St]) -> bool { sts.iter().any(|s| matches!(s, St::Bind(..) | St::Abort)) }
     /// `let (mutated..) := (block)`
     fn emit_block(&mut self, sts: Vec<St>, muts: &BTreeSet<String>) -> R<()> {
         if muts.is_empty() {
@@ -271,9 +315,9 @@ impl<'a> Fx<'a> {
         }
         let names: Vec<String> = self.ordered(muts).iter().map(|m| ident(m)).collect();
         let pat = tuple_of(&names);
-        if Self::is_partial(&sts) {
-            let text = render(&sts, &format!("some {}", pat));
-            self.emit(St::Bind(pat, text));
+        if let Some(k) = eff_of(&sts)? {
+            let text = render(&sts, &eff_ret(Some(k), &pat));
+            self.emit(St::Bind(pat, text, k));
         } else {
             let text = render(&sts, &pat);
             self.emit(St::Let(pat, text));
@@ -292,15 +336,27 @@ impl<'a> Fx<'a> {
                 let el = self.ty_of(&a.elem)?;
                 let len = quote!(#a).to_string();
                 match el {
+                    Ty::U8 => Ty::Bytes,
                     Ty::U64 => { let n = match &a.len { Expr::Lit(ExprLit { lit: Lit::Int(i), .. }) => i.base10_parse::<usize>().map_err(|e| e.to_string())?, _ => return Err(format!("array length {}", len)) }; Ty::Limbs(n) }
                     Ty::Fp => Ty::FpArr,
                     _ => return Err(format!("array type {}", len)),
                 }
             }
+            Type::Slice(sl) => match self.ty_of(&sl.elem)? { Ty::U8 => Ty::Bytes, Ty::U64 => Ty::Limbs(4), t => return Err(format!("slice of {:?}", t)) },
+            Type::ImplTrait(it) => { let t = quote!(#it).to_string().replace(' ', ""); if t.starts_with("implIterator<Item=bool>") { Ty::BoolList } else { return Err(format!("type {}", t)) } }
             Type::Path(p) => {
                 let last = p.path.segments.last().ok_or("empty path")?;
+                if let Some(g) = &self.generic_tys { if let Some(t) = g.get(&last.ident.to_string()) { return Ok(t.clone()); } }
                 match last.ident.to_string().as_str() {
-                    "u64" => Ty::U64, "u128" => Ty::U128, "usize" => Ty::Usize, "u32" => Ty::U32, "bool" => Ty::Bool,
+                    "u64" => Ty::U64, "u128" => Ty::U128, "usize" => Ty::Usize, "u32" => Ty::U32, "bool" => Ty::Bool, "u8" => Ty::U8,
+                    "str" => Ty::Chars, "char" => Ty::Char, "BitIterator" => Ty::BitIter,
+                    "Result" => {
+                        // `Result<T, Error>` is modelled as `Option T` (the model does not distinguish the errors)
+                        if let PathArguments::AngleBracketed(a) = &last.arguments {
+                            if let Some(GenericArgument::Type(t)) = a.args.first() { return Ok(Ty::Opt(Box::new(self.ty_of(t)?))); }
+                        }
+                        return Err("Result without argument".into());
+                    }
                     "U256" => Ty::U256, "U512" => Ty::U512, "B256" => Ty::B256, "B512" => Ty::B512,
                     "Fq" | "Fr" | "Fp" => Ty::Fp,
                     "Self" => self.self_ty.clone(),
@@ -357,6 +413,8 @@ impl<'a> Fx<'a> {
     }
 
     fn expr(&mut self, e: &Expr, exp: Option<&Ty>) -> R<Val> {
+        // operands already evaluated by the caller (their hoisted statements must not be emitted twice)
+        if let Some(i) = self.pre.iter().position(|(p, _)| *p == e as *const Expr) { return Ok(self.pre.remove(i).1); }
         match e {
             Expr::Paren(p) => { let v = self.expr(&p.expr, exp)?; Ok(Val { s: paren(&v.s), ..v }) }
             Expr::Group(g) => self.expr(&g.expr, exp),
@@ -374,7 +432,10 @@ impl<'a> Fx<'a> {
                 UnOp::Neg(_) => {
                     let v = self.expr(&u.expr, None)?;
                     if v.ty != Ty::Fp { return Err("unary minus on a non-field value".into()); }
-                    self.call_named("Fp", "neg_inplace", Some(&u.expr), &[])
+                    self.pre.push((&*u.expr as *const Expr, v));
+                    let r = self.call_named("Fp", "neg_inplace", Some(&u.expr), &[]);
+                    self.pre.clear();
+                    r
                 }
                 _ => Err("unary op".into()),
             },
@@ -406,6 +467,35 @@ impl<'a> Fx<'a> {
             Expr::MethodCall(m) => self.method(m, exp),
             Expr::Call(c) => self.call(c, exp),
             Expr::Macro(m) => self.macro_expr(&m.mac),
+            Expr::Tuple(t) if t.elems.is_empty() => Ok(Val::new("()", Ty::Unit)),
+            Expr::Repeat(rp) => {
+                let n = lit_u128(&rp.len).ok_or("array repeat with a non-literal length")?;
+                match &*rp.expr {
+                    Expr::Lit(ExprLit { lit: Lit::Int(i), .. }) if i.base10_digits() == "0" => match i.suffix() {
+                        "u8" => Ok(Val { s: format!("(List.replicate {} (0 : UInt8))", n), ty: Ty::Bytes, bound: None, k: Some(n) }),
+                        "" | "u64" => Ok(Val::new(format!("[{}]", vec!["0"; n as usize].join(", ")), Ty::Limbs(n as usize))),
+                        s => Err(format!("array of {}", s)),
+                    },
+                    _ => Err("array repeat of a non-zero element".into()),
+                }
+            }
+            Expr::Match(_) => Err("`match` in expression position".into()),
+            Expr::Block(b) if b.label.is_none() => {
+                // `{ stmts; value }`: the statements join the enclosing sequence; names declared inside must be new
+                let n = b.block.stmts.len();
+                if n == 0 { return Err("empty block".into()); }
+                for st in &b.block.stmts { if let Stmt::Local(l) = st { let (ns, _) = self.pat_names(&l.pat)?; for (x, _) in ns { if x != "_" && self.lookup(&x).is_some() { return Err(format!("block expression re-declares `{}`", x)); } } } }
+                self.scopes.push(Scope::default());
+                let r = (|| { for st in &b.block.stmts[..n - 1] { self.stmt(st)?; } match &b.block.stmts[n - 1] { Stmt::Expr(e, None) => self.expr(e, exp), _ => Err("block without a value".into()) } })();
+                let sc = self.scopes.pop().unwrap();
+                for m in &sc.mutated { let _ = self.rebind_mark(m, true); }
+                r
+            }
+            Expr::Struct(st) if path_str(&st.path) == "BitIterator" => {
+                let mut int = None; let mut n = None;
+                for fv in &st.fields { if let Member::Named(id) = &fv.member { if id == "int" { int = Some(self.expr(&fv.expr, Some(&Ty::U256))?); } else if id == "n" { n = Some(self.expr(&fv.expr, Some(&Ty::Usize))?); } } }
+                match (int, n) { (Some(i), Some(n)) if i.ty == Ty::U256 && n.ty.is_int() => Ok(Val::new(format!("({}, {})", i.s, n.s), Ty::BitIter)), _ => Err("BitIterator literal".into()) }
+            }
             Expr::Tuple(t) => {
                 let exps: Vec<Option<Ty>> = match exp { Some(Ty::Tuple(v)) if v.len() == t.elems.len() => v.iter().map(|x| Some(x.clone())).collect(), _ => vec![None; t.elems.len()] };
                 let mut vs = vec![];
@@ -467,6 +557,8 @@ impl<'a> Fx<'a> {
                 if k + 1 < n { s = format!("{}.1", s); }
                 Ok(Val::new(s, ts[k].clone()))
             }
+            (Member::Named(n), Ty::BitIter) if n == "int" => Ok(Val::new(format!("{}.1", paren(&b.s)), Ty::U256)),
+            (Member::Named(n), Ty::BitIter) if n == "n" => Ok(Val::new(format!("{}.2", paren(&b.s)), Ty::Usize)),
             (Member::Named(n), Ty::MulBuf) if n == "b0" => Ok(Val::new(format!("(List.take 4 {})", paren(&b.s)), Ty::Limbs(4))),
             (Member::Named(n), Ty::MulBuf) if n == "b1" => Ok(Val::new(format!("(List.drop 4 {})", paren(&b.s)), Ty::Limbs(4))),
             _ => Err(format!("field access {}", short(f))),
@@ -501,26 +593,107 @@ impl<'a> Fx<'a> {
                 return match m.get(&arr) { Some(el) => Ok(Val::new(el.clone(), Ty::Fp)), None => Err(format!("fold index used on `{}`, which is not one of the zipped arrays", arr)) };
             }
         }
+        if let Expr::Range(r) = strip(&i.index) {
+            let b = self.expr(&i.expr, None)?;
+            if b.ty != Ty::Bytes { return Err(format!("range index into {:?}", b.ty)); }
+            if r.end.is_some() { return Err("slice with an upper bound".into()); }
+            return match &r.start {
+                None => Ok(b),
+                Some(st) => {
+                    let k = self.expr(st, Some(&Ty::Usize))?;
+                    if !k.ty.is_int() { return Err("non-integer slice bound".into()); }
+                    self.oblige(format!("{} ≤ List.length {}", k.s, paren(&b.s)));
+                    Ok(Val::new(format!("(List.drop {} {})", paren(&k.s), paren(&b.s)), Ty::Bytes))
+                }
+            };
+        }
         let idx = self.expr(&i.index, Some(&Ty::Usize))?;
         if !idx.ty.is_int() { return Err("non-integer index".into()); }
+        {
+            // Vec<Fp>: `ints[k]`
+            let b = self.expr(&i.expr, None);
+            if let Ok(b) = b { if b.ty == Ty::FpArr {
+                self.oblige(format!("{} < List.length {}", idx.s, paren(&b.s)));
+                return Ok(Val::new(format!("(List.getD {} {} 0)", paren(&b.s), paren(&idx.s)), Ty::Fp));
+            } }
+        }
         let (list, off, len) = self.indexable(&i.expr)?;
         self.check_index(&idx, len, &short(&i.expr))?;
         let ix = match off { Some(o) => format!("({} + {})", o, idx.s), None => paren(&idx.s) };
         Ok(Val { s: format!("(U256.getL {} {})", paren(&list), ix), ty: Ty::U64, bound: None, k: None })
     }
 
+    /// `X.is_some()` / `X.is_none()` on an `Option` variable
+    fn option_guard(&self, e: &Expr, want_some: bool) -> Option<(String, Ty)> {
+        let e = match e { Expr::Paren(p) => &*p.expr, o => o };
+        if let Expr::MethodCall(m) = e {
+            if m.args.is_empty() && m.method == (if want_some { "is_some" } else { "is_none" }) {
+                if let Expr::Path(p) = strip(&m.receiver) {
+                    let n = path_str(&p.path);
+                    if let Some((_, Var { ty: Ty::Opt(inner), kind: Kind::Plain, .. })) = self.lookup(&n) { return Some((n, (**inner).clone())); }
+                }
+            }
+        }
+        None
+    }
+
+    /// `l && r` / `l || r`.  The right operand is evaluated only when needed: if it has effects (calls that rebind
+    /// variables, may panic, ...) the operator is lowered to an `if`; `X.is_some() && r` / `X.is_none() || r` become a
+    /// `match` on `X` inside which `X.unwrap()` / `X.as_mut().unwrap()` denote the payload.
+    fn short_circuit(&mut self, b: &ExprBinary, is_and: bool) -> R<Val> {
+        let guard = self.option_guard(&b.left, is_and);
+        let l = match &guard { None => { let l = self.expr(&b.left, Some(&Ty::Bool))?; if l.ty != Ty::Bool { return Err("&&/|| on non-bool".into()); } Some(l) } Some(_) => None };
+        let saved_flags = std::mem::take(&mut self.assert_flags);
+        let mut rv: Option<Val> = None;
+        let res = {
+            let rvr = &mut rv; let g2 = guard.clone();
+            self.sub_block_raw(|fx| {
+                if let Some((x, inner)) = &g2 { let pv = format!("{}_v", x); fx.declare(&pv, Self::plain(inner.clone(), true)); fx.unwrapped.insert(x.clone(), pv); }
+                let r = fx.expr(&b.right, Some(&Ty::Bool));
+                if let Some((x, _)) = &g2 {
+                    let pv = fx.unwrapped.remove(x).unwrap();
+                    if fx.payload_mutated.remove(&pv) { fx.emit(St::Let(ident(x), format!("some {}", ident(&pv)))); fx.rebind_mark(x, false)?; }
+                }
+                *rvr = Some(r?);
+                Ok(())
+            })
+        };
+        let fl = std::mem::replace(&mut self.assert_flags, saved_flags);
+        let (sts, muts) = res?;
+        let mut r = rv.unwrap();
+        if r.ty != Ty::Bool { return Err("&&/|| on non-bool".into()); }
+        if !fl.is_empty() { r.s = format!("({} && {})", fl.join(" && "), r.s); }
+        let dflt = if is_and { "false" } else { "true" };
+        if sts.iter().all(|s| matches!(s, St::Comment(_))) && muts.is_empty() {
+            return Ok(Val::new(match (&guard, &l) {
+                (Some((x, _)), _) => format!("(match {} with | none => {} | some {}_v => {})", ident(x), dflt, ident(x), r.s),
+                (None, Some(l)) => format!("({} {} {})", l.s, if is_and { "&&" } else { "||" }, r.s),
+                _ => unreachable!(),
+            }, Ty::Bool));
+        }
+        let eff = eff_of(&sts)?;
+        let sc = self.fresh("sc");
+        let mut names: Vec<String> = self.ordered(&muts).iter().map(|m| ident(m)).collect();
+        let mut dnames = names.clone(); dnames.push(dflt.to_string());
+        let mut vnames = names.clone(); vnames.push(r.s.clone());
+        names.push(sc.clone());
+        let block = render(&sts, &eff_ret(eff, &tuple_of(&vnames)));
+        let dfin = eff_ret(eff, &tuple_of(&dnames));
+        let text = match (&guard, &l) {
+            (Some((x, _)), _) => format!("match {} with\n| none => {}\n| some {}_v =>\n{}", ident(x), dfin, ident(x), indent(&block, 2)),
+            (None, Some(l)) => if is_and { format!("if {} then\n{}\nelse\n  {}", l.s, indent(&block, 2), dfin) } else { format!("if {} then\n  {}\nelse\n{}", l.s, dfin, indent(&block, 2)) },
+            _ => unreachable!(),
+        };
+        let pat = tuple_of(&names);
+        match eff { Some(k) => self.emit(St::Bind(pat, text, k)), None => self.emit(St::Let(pat, text)) }
+        for m in &muts { self.rebind_mark(m, true)?; }
+        Ok(Val::new(sc, Ty::Bool))
+    }
+
     fn binary(&mut self, b: &ExprBinary, exp: Option<&Ty>) -> R<Val> {
         use BinOp::*;
         // short-circuit operators: the right operand must be free of effects
-        if matches!(b.op, And(_) | Or(_)) {
-            let l = self.expr(&b.left, Some(&Ty::Bool))?;
-            let n = self.bufs.last().unwrap().len();
-            let r = self.expr(&b.right, Some(&Ty::Bool))?;
-            if self.bufs.last().unwrap().len() != n { return Err("side effect in the right operand of a short-circuit operator".into()); }
-            if l.ty != Ty::Bool || r.ty != Ty::Bool { return Err("&&/|| on non-bool".into()); }
-            let op = if matches!(b.op, And(_)) { "&&" } else { "||" };
-            return Ok(Val::new(format!("({} {} {})", l.s, op, r.s), Ty::Bool));
-        }
+        if matches!(b.op, And(_) | Or(_)) { return self.short_circuit(b, matches!(b.op, And(_))); }
         let is_cmp = matches!(b.op, Lt(_) | Le(_) | Gt(_) | Ge(_) | Eq(_) | Ne(_));
         let is_shift = matches!(b.op, Shl(_) | Shr(_));
         let sub_exp: Option<Ty> = if is_cmp { None } else { exp.cloned() };
@@ -534,7 +707,11 @@ impl<'a> Fx<'a> {
         // field operators forward to the *_inplace methods (fields/utils.rs binop macros)
         if l.ty == Ty::Fp && r.ty == Ty::Fp && matches!(b.op, Add(_) | Sub(_) | Mul(_)) {
             let m = match b.op { Add(_) => "add_inplace", Sub(_) => "sub_inplace", _ => "mul_inplace" };
-            return self.call_named("Fp", m, Some(&b.left), &[(*b.right).clone()]);
+            self.pre.push((&*b.left as *const Expr, l));
+            self.pre.push((&*b.right as *const Expr, r));
+            let res = self.call_named("Fp", m, Some(&b.left), std::slice::from_ref(&*b.right));
+            self.pre.clear();
+            return res;
         }
         if is_cmp {
             let t = self.unify(&l.ty, &r.ty)?;
@@ -578,7 +755,12 @@ impl<'a> Fx<'a> {
             }
             Sub(_) => match (l.k, r.k) {
                 (Some(a), Some(c)) => { let k = a.checked_sub(c).ok_or("subtraction underflow: the Rust code panics")?; Ok(Val { s: format!("({} - {})", l.s, r.s), ty: t, bound: Some(k), k: Some(k) }) }
-                _ => Err(format!("subtraction with a symbolic operand `{}` (underflow not checkable)", short(b))),
+                _ => {
+                    if t == Ty::Lit { return Err("subtraction of literals of unknown type".into()); }
+                    // underflow = panic: left to an obligation
+                    self.oblige(format!("{} ≤ {}", r.s, l.s));
+                    Ok(Val { s: format!("({} - {})", l.s, r.s), ty: t, bound: l.ub(), k: None })
+                }
             },
             BitOr(_) | BitAnd(_) => {
                 if t == Ty::Lit { return Err("bit operation on literals".into()); }
@@ -604,6 +786,9 @@ impl<'a> Fx<'a> {
 }
 
 // ==================================================================== calls
+/// functions in which `unwrap()` is translated as a total extraction plus a proof obligation `isSome`
+/// (the model treats them as total); everywhere else `unwrap()` is a possible panic (`Outcome`)
+fn unwrap_total(key: &str) -> bool { matches!(key, "U512.new") }
 fn call_fuel(key: &str) -> Option<&'static str> { match key { "U256.add_carry" => Some("8"), _ => None } }
 
 impl<'a> Fx<'a> {
@@ -614,6 +799,14 @@ impl<'a> Fx<'a> {
                 let n = path_str(&p.path);
                 match self.lookup(&n) { Some((_, v)) if matches!(v.kind, Kind::Plain) => Ok(n), _ => Err(format!("`{}` is not a variable", n)) }
             }
+            Expr::MethodCall(m) if (m.method == "unwrap" || m.method == "as_mut") && m.args.is_empty() => {
+                // q.as_mut().unwrap() inside `q.is_some() && ..`: the payload
+                let mut rcv = strip(&m.receiver);
+                if let Expr::MethodCall(m2) = rcv { if (m2.method == "as_mut" || m2.method == "as_ref") && m2.args.is_empty() { rcv = strip(&m2.receiver); } }
+                if let Expr::Path(p) = rcv { if let Some(pv) = self.unwrapped.get(&path_str(&p.path)) { if m.method == "unwrap" { return Ok(pv.clone()); } } }
+                Err(format!("unsupported place `{}`", short(e)))
+            }
+            Expr::Index(ix) if matches!(strip(&ix.index), Expr::Range(r) if r.start.is_none() && r.end.is_none()) => self.place_var(&ix.expr),
             Expr::Field(f) => {
                 if let Member::Unnamed(i) = &f.member {
                     if i.index == 0 {
@@ -659,7 +852,7 @@ impl<'a> Fx<'a> {
         }
         for (a, (_, pty, is_mut)) in args.iter().zip(sig.params.iter()) {
             if *is_mut {
-                let ok = matches!(a, Expr::Reference(r) if r.mutability.is_some());
+                let ok = matches!(a, Expr::Reference(r) if r.mutability.is_some()) || matches!(strip(a), Expr::Path(p) if self.mut_params.contains(&path_str(&p.path)));
                 if !ok { return Err(format!("`&mut` argument of {} is not of the form `&mut x`", sig.key)); }
                 let n = self.place_var(a)?;
                 self.resolve_lit_var(a, pty);
@@ -676,11 +869,12 @@ impl<'a> Fx<'a> {
             }
         }
         let text = parts.join(" ");
-        if outs.is_empty() && !sig.partial { return Ok(Val::new(format!("({})", text), sig.ret.clone())); }
+        if outs.is_empty() && !sig.partial && !sig.panics && !sig.has_dbg { return Ok(Val::new(format!("({})", text), sig.ret.clone())); }
         let mut pat: Vec<String> = outs.iter().map(|o| ident(o)).collect();
         let rv = if sig.ret != Ty::Unit { let n = self.fresh("ret"); pat.push(n.clone()); n } else { "()".to_string() };
+        if sig.has_dbg { let d = self.fresh("dbgc"); pat.push(d.clone()); if self.in_assert { self.assert_flags.push(d); } }
         let p = tuple_of(&pat);
-        if sig.partial { self.emit(St::Bind(p, text)); } else { self.emit(St::Let(p, text)); }
+        if sig.partial || sig.panics { self.emit(St::Bind(p, text, sig.panics)); } else { self.emit(St::Let(p, text)); }
         for o in &outs { self.rebind_mark(o, false)?; }
         Ok(Val::new(rv, sig.ret.clone()))
     }
@@ -693,6 +887,26 @@ impl<'a> Fx<'a> {
         // x.as_mut().copy_from_slice(src) / a.copy_from_slice(src)
         if name == "copy_from_slice" && args.len() == 1 {
             let src = self.expr(&args[0], None)?;
+            if src.ty == Ty::Bytes {
+                // dst.copy_from_slice(src) on byte slices: equal lengths are an obligation
+                if let Expr::Index(ix) = strip(&m.receiver) {
+                    if let Expr::Range(r) = strip(&ix.index) {
+                        if r.end.is_some() { return Err("slice with an upper bound".into()); }
+                        let n = self.place_var(&ix.expr)?;
+                        if self.lookup(&n).unwrap().1.ty != Ty::Bytes { return Err("byte copy into a non-byte buffer".into()); }
+                        let st = match &r.start { Some(st) => self.expr(st, Some(&Ty::Usize))?, None => Val { s: "0".into(), ty: Ty::Usize, bound: Some(0), k: Some(0) } };
+                        self.oblige(format!("{} ≤ List.length {}", st.s, ident(&n)));
+                        self.oblige(format!("List.length {} - {} = List.length {}", ident(&n), st.s, paren(&src.s)));
+                        self.emit(St::Let(ident(&n), format!("List.take {} {} ++ {}", paren(&st.s), ident(&n), paren(&src.s))));
+                        return self.rebind_mark(&n, false).map(|_| Val::new("()", Ty::Unit));
+                    }
+                }
+                let n = self.place_var(&m.receiver)?;
+                if self.lookup(&n).unwrap().1.ty != Ty::Bytes { return Err("byte copy into a non-byte buffer".into()); }
+                self.oblige(format!("List.length {} = List.length {}", ident(&n), paren(&src.s)));
+                self.emit(St::Let(ident(&n), src.s.clone()));
+                return self.rebind_mark(&n, false).map(|_| Val::new("()", Ty::Unit));
+            }
             if src.ty != Ty::Limbs(4) { return Err("copy_from_slice: source is not a 4-limb slice".into()); }
             if let Expr::MethodCall(inner) = strip(&m.receiver) {
                 if inner.method == "as_mut" && inner.args.is_empty() {
@@ -716,7 +930,7 @@ impl<'a> Fx<'a> {
             }
             return Ok(Val::new("()", Ty::Unit));
         }
-        if name == "pow" && args.len() == 1 {
+        if name == "pow" && args.len() == 1 && !self.g.sigs.get(&("Fp".to_string(), "pow".to_string())).map(|s| s.translated).unwrap_or(false) {
             let r = self.expr(&m.receiver, None)?;
             let e = self.expr(&args[0], None)?;
             if r.ty == Ty::Fp && e.ty == Ty::Fp {
@@ -725,6 +939,105 @@ impl<'a> Fx<'a> {
                 return Ok(Val::new(format!("(Sm9.Fp.pow {} {} {})", p, paren(&r.s), paren(&e.s)), Ty::Fp));
             }
             return Err("pow on non-field values".into());
+        }
+        if (name == "unwrap" || name == "expect") && !self.unwrapped.is_empty() {
+            let mut rcv = strip(&m.receiver);
+            if let Expr::MethodCall(m2) = rcv { if (m2.method == "as_mut" || m2.method == "as_ref") && m2.args.is_empty() { rcv = strip(&m2.receiver); } }
+            if let Expr::Path(p) = rcv {
+                if let Some(pv) = self.unwrapped.get(&path_str(&p.path)).cloned() {
+                    let ty = self.lookup(&pv).unwrap().1.ty.clone();
+                    return Ok(Val::new(ident(&pv), ty));
+                }
+            }
+        }
+        if name == "collect" && args.is_empty() {
+            // (a..b).map(|x| body).collect(): the closure is run once per element, in order (it may assign captured variables)
+            if let Expr::MethodCall(mm) = strip(&m.receiver) {
+                if mm.method == "map" && mm.args.len() == 1 {
+                    if let (Expr::Closure(cl), Ok(IterSpec::Static(items, None))) = (&mm.args[0], self.iter_seq(&mm.receiver)) {
+                        if cl.inputs.len() != 1 { return Err("map closure arity".into()); }
+                        let (pn, _) = self.pat_names(&cl.inputs[0])?;
+                        let mut vals = vec![];
+                        let mut ety: Option<Ty> = None;
+                        for it in items {
+                            if it.enum_idx.is_some() || it.val2.is_some() { return Err("collect over pairs".into()); }
+                            let mut out: Option<Val> = None;
+                            let (sts, muts) = {
+                                let o = &mut out; let pn2 = pn.clone();
+                                self.sub_block_raw(|fx| {
+                                    if pn2[0].0 != "_" { fx.declare(&pn2[0].0, Var { ty: Ty::Usize, kind: Kind::Const(it.val), bound: Some(it.val), view_of: None, mutable: false, id: 0, kc: None }); }
+                                    match &*cl.body {
+                                        Expr::Block(b) => {
+                                            let n = b.block.stmts.len();
+                                            if n == 0 { return Err("empty closure".into()); }
+                                            for st in &b.block.stmts[..n - 1] { fx.stmt(st)?; }
+                                            match &b.block.stmts[n - 1] { Stmt::Expr(e, None) => { *o = Some(fx.expr(e, None)?); Ok(()) } _ => Err("closure without tail value".into()) }
+                                        }
+                                        e => { *o = Some(fx.expr(e, None)?); Ok(()) }
+                                    }
+                                })?
+                            };
+                            let v = out.unwrap();
+                            if let Some(t) = &ety { if *t != v.ty { return Err("collect of mixed types".into()); } } else { ety = Some(v.ty.clone()); }
+                            let eff = eff_of(&sts)?;
+                            let cv = self.fresh("cv");
+                            let mut names: Vec<String> = self.ordered(&muts).iter().map(|x| ident(x)).collect();
+                            let mut vn = names.clone(); vn.push(v.s.clone());
+                            names.push(cv.clone());
+                            let text = render(&sts, &eff_ret(eff, &tuple_of(&vn)));
+                            match eff { Some(k) => self.emit(St::Bind(tuple_of(&names), text, k)), None => self.emit(St::Let(tuple_of(&names), text)) }
+                            for x in &muts { self.rebind_mark(x, true)?; }
+                            vals.push(cv);
+                        }
+                        return match ety { Some(Ty::Fp) => Ok(Val { s: format!("[{}]", vals.join(", ")), ty: Ty::FpArr, bound: None, k: Some(vals.len() as u128) }), t => Err(format!("collect of {:?}", t)) };
+                    }
+                }
+            }
+            return Err("collect".into());
+        }
+        if name == "skip_while" && args.len() == 1 {
+            let r = self.expr(&m.receiver, None)?;
+            if r.ty != Ty::BitIter { return Err("skip_while on a non-BitIterator".into()); }
+            let Expr::Closure(cl) = &args[0] else { return Err("skip_while with a non-closure".into()) };
+            let (pn, _) = self.pat_names(&cl.inputs[0])?;
+            let (text, ty) = self.closure_value(&cl.body, vec![(pn[0].0.clone(), Self::plain(Ty::Bool, false))])?;
+            if ty != Ty::Bool { return Err("skip_while predicate".into()); }
+            let next = self.sig("BitIterator", "next")?;
+            if !next.translated { return Err("BitIterator::next is not translated".into()); }
+            self.calls.insert(next.key.clone());
+            self.note("an iterator is translated as the list it yields (iterList next (n + 1) state); skip_while is List.dropWhile");
+            return Ok(Val::new(format!("(List.dropWhile (fun {} => {}) (iterList {} ({}.2 + 1) {}))", ident(&pn[0].0), text, next.lean, paren(&r.s), paren(&r.s)), Ty::BoolList));
+        }
+        if name == "into" && args.is_empty() {
+            let r = self.expr(&m.receiver, None)?;
+            if r.ty == Ty::Fp {
+                self.note("`.into()` on a field element is From<Fp> for U256");
+                self.pre.push((&*m.receiver as *const Expr, r));
+                let res = self.call_named("Fp", "into_u256", None, std::slice::from_ref(&*m.receiver));
+                self.pre.clear();
+                return res;
+            }
+            return Err(format!("into() on {:?}", r.ty));
+        }
+        if name == "gen" && args.is_empty() {
+            let r = self.expr(&m.receiver, None)?;
+            if r.ty != Ty::Rng { return Err("gen() on a non-rng".into()); }
+            let x = self.place_var(&m.receiver)?;
+            // only the draw of a BigInt<8> is modelled: eight u64, limb 0 first (as the model's Fp.random)
+            if exp != Some(&Ty::B512) { return Err("rng.gen() of a type other than BigInt<8>".into()); }
+            self.note("rng.gen::<BigInt<8>>() consumes eight u64 draws of the script, limb 0 first");
+            let d = self.fresh("draw");
+            self.emit(St::Let(format!("({}, {})", ident(&x), d), format!("(List.drop 8 {}, Limb.value B64 (List.take 8 {}))", ident(&x), ident(&x))));
+            self.rebind_mark(&x, false)?;
+            return Ok(Val::new(d, Ty::B512));
+        }
+        if name == "concat" && args.is_empty() {
+            if let Expr::Array(a) = strip(&m.receiver) {
+                let mut parts = vec![];
+                for x in &a.elems { let v = self.expr(x, None)?; if v.ty != Ty::Bytes { return Err("concat of non-byte arrays".into()); } parts.push(paren(&v.s)); }
+                return Ok(Val::new(format!("({})", parts.join(" ++ ")), Ty::Bytes));
+            }
+            return Err("concat".into());
         }
         let r = self.expr(&m.receiver, None)?;
         match (&r.ty, name.as_str(), args.len()) {
@@ -739,6 +1052,36 @@ impl<'a> Fx<'a> {
                 if a.ty != Ty::U128 { return Err("wrapping_sub argument".into()); }
                 Ok(Val { s: format!("(({} + 2 ^ 128 - {}) % 2 ^ 128)", r.s, a.s), ty: Ty::U128, bound: None, k: None })
             }
+            (Ty::Bytes, "len", 0) => Ok(Val::new(format!("(List.length {})", paren(&r.s)), Ty::Usize)),
+            (Ty::Bytes, "as_ref", 0) | (Ty::Opt(_), "as_ref", 0) | (Ty::Opt(_), "as_mut", 0) => Ok(r),
+            (Ty::B256, "to_bytes_be", 0) => { self.note("BigInt::to_bytes_be is the model's beBytes"); Ok(Val { s: format!("(beBytes 32 {})", paren(&r.s)), ty: Ty::Bytes, bound: None, k: Some(32) }) }
+            (Ty::B512, "to_bytes_be", 0) => { self.note("BigInt::to_bytes_be is the model's beBytes"); Ok(Val { s: format!("(beBytes 64 {})", paren(&r.s)), ty: Ty::Bytes, bound: None, k: Some(64) }) }
+            (Ty::Opt(_), "is_some", 0) => Ok(Val::new(format!("(Option.isSome {})", paren(&r.s)), Ty::Bool)),
+            (Ty::Opt(_), "is_none", 0) => Ok(Val::new(format!("(Option.isNone {})", paren(&r.s)), Ty::Bool)),
+            (Ty::Opt(inner), "unwrap", 0) | (Ty::Opt(inner), "expect", 1) => {
+                let inner = (**inner).clone();
+                if unwrap_total(&self.key) {
+                    let dflt = match &inner { Ty::Unit => "()", t if t.is_int() || t.is_big() => "0", t => return Err(format!("unwrap of Option {:?}", t)) };
+                    self.oblige(format!("Option.isSome {} = true", paren(&r.s)));
+                    Ok(Val::new(format!("(Option.getD {} {})", paren(&r.s), dflt), inner))
+                } else {
+                    let v = self.fresh("uw");
+                    self.emit(St::Bind(v.clone(), format!("Outcome.unwrap {}", paren(&r.s)), true));
+                    Ok(Val::new(if inner == Ty::Unit { "()".to_string() } else { v }, inner))
+                }
+            }
+            (Ty::Opt(inner), "map", 1) => {
+                let Expr::Closure(cl) = &args[0] else { return Err("map with a non-closure".into()) };
+                if cl.inputs.len() != 1 { return Err("map closure arity".into()); }
+                let (pn, _) = self.pat_names(&cl.inputs[0])?;
+                if pn.len() != 1 { return Err("map closure pattern".into()); }
+                let (text, ty) = self.closure_value(&cl.body, vec![(pn[0].0.clone(), Self::plain((**inner).clone(), false))])?;
+                Ok(Val::new(format!("(Option.map (fun {} => {}) {})", ident(&pn[0].0), text, paren(&r.s)), Ty::Opt(Box::new(ty))))
+            }
+            (Ty::Char, "to_digit", 1) if lit_u128(&args[0]) == Some(10) => {
+                self.note("char::to_digit(10) is `if c.isDigit then some (c.toNat - 48) else none`");
+                Ok(Val::new(format!("(if Char.isDigit {} then some (Char.toNat {} - 48) else none)", paren(&r.s), paren(&r.s)), Ty::Opt(Box::new(Ty::U32))))
+            }
             (Ty::U256, "as_ref", 0) | (Ty::B256, "as_ref", 0) => Ok(Val::new(format!("(U256.limbs {})", paren(&r.s)), Ty::Limbs(4))),
             (_, "clone", 0) => Ok(r),
             (Ty::B256, "is_zero", 0) | (Ty::B512, "is_zero", 0) => Ok(Val::new(format!("({} == 0)", r.s), Ty::Bool)),
@@ -746,7 +1089,10 @@ impl<'a> Fx<'a> {
                 let tk = tykey(t);
                 // U256 forwards to its BigInt for methods it does not define itself
                 let sig = match self.sig(tk, &name) { Ok(s) => s, Err(e) => if tk == "U256" { self.sig("B256", &name).map_err(|_| e)? } else { return Err(e) } };
-                self.call_sig(&sig, Some(&m.receiver), &args)
+                self.pre.push((&*m.receiver as *const Expr, r.clone()));
+                let res = self.call_sig(&sig, Some(&m.receiver), &args);
+                self.pre.clear();
+                res
             }
             (t, _, _) => Err(format!("method {} on {:?}", name, t)),
         }
@@ -763,6 +1109,24 @@ impl<'a> Fx<'a> {
                 let v = self.expr(&args[0], inner.as_ref())?;
                 return Ok(Val::new(format!("(some {})", paren(&v.s)), Ty::Opt(Box::new(v.ty))));
             }
+            ("Ok", 1) => {
+                let inner = match exp { Some(Ty::Opt(t)) => Some((**t).clone()), _ => None };
+                let v = self.expr(&args[0], inner.as_ref())?;
+                return Ok(Val::new(format!("(some {})", paren(&v.s)), Ty::Opt(Box::new(v.ty))));
+            }
+            // `Err(e)`: the model does not distinguish the errors
+            ("Err", 1) => return Ok(Val::new("none", exp.cloned().unwrap_or(Ty::Opt(Box::new(Ty::Lit))))),
+            ("BigEndian::read_u64", 1) => {
+                let v = self.expr(&args[0], None)?;
+                if v.ty != Ty::Bytes { return Err("read_u64 of a non-byte slice".into()); }
+                self.note("BigEndian::read_u64 is the model's beVal of the first 8 bytes");
+                self.oblige(format!("8 ≤ List.length {}", paren(&v.s)));
+                return Ok(Val { s: format!("(beVal (List.take 8 {}))", paren(&v.s)), ty: Ty::U64, bound: None, k: None });
+            }
+            ("U512::from", 1) => { let v = self.expr(&args[0], None)?; if v.ty != Ty::Limbs(8) { return Err("U512::from".into()); } return Ok(Val::new(format!("(Limb.value B64 {})", paren(&v.s)), Ty::U512)); }
+            ("U512", 1) => { let v = self.expr(&args[0], Some(&Ty::B512))?; if v.ty != Ty::B512 { return Err("U512(..) of a non-BigInt".into()); } return Ok(Val::new(v.s, Ty::U512)); }
+            ("B512::one", 0) => return Ok(Val::new("1", Ty::B512)),
+            ("B512::new", 1) => { let v = self.expr(&args[0], None)?; if v.ty != Ty::Limbs(8) { return Err("B512::new".into()); } return Ok(Val::new(format!("(Limb.value B64 {})", paren(&v.s)), Ty::B512)); }
             ("Fq", 1) | ("Fr", 1) | ("Fp", 1) | ("Self", 1) if f != "Self" || self.self_ty == Ty::Fp => {
                 let v = self.expr(&args[0], Some(&Ty::U256))?;
                 if v.ty != Ty::U256 { return Err("field constructor on a non-U256".into()); }
@@ -782,7 +1146,7 @@ impl<'a> Fx<'a> {
                 let v = self.expr(&args[0], None)?;
                 return match v.ty {
                     Ty::Limbs(4) => Ok(Val::new(format!("(U256.ofLimbs {})", paren(&v.s)), Ty::U256)),
-                    Ty::Fp => self.call_named("Fp", "into_u256", None, &args),
+                    Ty::Fp => { self.pre.push((&args[0] as *const Expr, v)); let r = self.call_named("Fp", "into_u256", None, &args); self.pre.clear(); r }
                     t => Err(format!("U256::from({:?})", t)),
                 };
             }
@@ -791,7 +1155,8 @@ impl<'a> Fx<'a> {
         if segs.len() == 1 { return self.call_named("", &segs[0], None, &args); }
         if segs.len() == 2 {
             let tk = match segs[0].as_str() { "Self" => tykey(&self.self_ty).to_string(), "Fq" | "Fr" | "Fp" => "Fp".into(), "U256" => "U256".into(), "U512" => "U512".into(), o => return Err(format!("call {}::{}", o, segs[1])) };
-            if tk == "Fp" && segs[0] != "Self" && self.in_macro { return Err(format!("{} inside field_impl", f)); }
+            if (segs[0] == "Fq" || segs[0] == "Fr") && self.p_arg.as_deref() != Some(&format!("{}.P", segs[0])) { return Err(format!("{} in the context of another field", f)); }
+            if tk == "Fp" && segs[0] != "Self" && segs[0] != "Fp" && self.in_macro { return Err(format!("{} inside field_impl", f)); }
             return self.call_named(&tk, &segs[1], None, &args);
         }
         Err(format!("call {}", f))
@@ -825,8 +1190,8 @@ impl<'a> Fx<'a> {
 }
 
 // ==================================================================== statements
-struct SeqItem { enum_idx: Option<u128>, val: u128 }
-enum IterSpec { Static(Vec<SeqItem>, Option<(String, u128)>), Dynamic { hi: Val, rev: bool }, Zip }
+struct SeqItem { enum_idx: Option<u128>, val: u128, val2: Option<u128> }
+enum IterSpec { Static(Vec<SeqItem>, Option<(String, u128)>), Dynamic { list: String, elem: Ty }, Zip }
 
 fn compound_op(op: &BinOp) -> Option<BinOp> {
     use BinOp::*;
@@ -843,7 +1208,7 @@ impl<'a> Fx<'a> {
         match p {
             Pat::Ident(i) => Ok((vec![(i.ident.to_string(), i.mutability.is_some())], None)),
             Pat::Wild(_) => Ok((vec![("_".into(), false)], None)),
-            Pat::Type(t) => { let (n, _) = self.pat_names(&t.pat)?; Ok((n, Some(self.ty_of(&t.ty)?))) }
+            Pat::Type(t) => { let (n, _) = self.pat_names(&t.pat)?; let ty = &t.ty; if quote!(#ty).to_string().contains('_') { Ok((n, None)) } else { Ok((n, Some(self.ty_of(&t.ty)?))) } }
             Pat::Tuple(t) => {
                 let mut v = vec![];
                 for e in &t.elems { let (n, _) = self.pat_names(e)?; if n.len() != 1 { return Err("nested tuple pattern".into()); } v.extend(n); }
@@ -889,6 +1254,7 @@ impl<'a> Fx<'a> {
         if let Some(t) = &ann { v.ty = self.unify(&v.ty, t)?; }
         self.emit(St::Let(Self::lean_pat(&names), v.s.clone()));
         self.declare_pat(&names, is_tuple, &v)?;
+        if !is_tuple && (v.ty == Ty::Bytes || v.ty == Ty::FpArr) && names[0].0 != "_" { if let Some(k) = v.k { let d = self.scopes.len(); self.facts.push((d, format!("List.length {} = {}", ident(&names[0].0), k))); } }
         if !is_tuple && !names[0].1 && v.ty == Ty::Usize && names[0].0 != "_" && !v.s.contains('\n') {
             let d = self.scopes.len();
             self.facts.push((d, format!("{} = {}", ident(&names[0].0), v.s)));
@@ -951,6 +1317,17 @@ impl<'a> Fx<'a> {
                 }
                 Ok(())
             }
+            Expr::Field(f) if matches!(&f.member, Member::Named(_)) => {
+                let x = self.place_var(&f.base)?;
+                if self.lookup(&x).unwrap().1.ty != Ty::BitIter { return Err(format!("assignment target {}", short(lhs))); }
+                let Member::Named(id) = &f.member else { unreachable!() };
+                match id.to_string().as_str() {
+                    "n" => { let v = self.expr(rhs, Some(&Ty::Usize))?; if !v.ty.is_int() { return Err("BitIterator.n".into()); } self.emit(St::Let(ident(&x), format!("({}.1, {})", ident(&x), v.s))); }
+                    "int" => { let v = self.expr(rhs, Some(&Ty::U256))?; if v.ty != Ty::U256 { return Err("BitIterator.int".into()); } self.emit(St::Let(ident(&x), format!("({}, {}.2)", v.s, ident(&x)))); }
+                    _ => return Err("BitIterator field".into()),
+                }
+                self.rebind_mark(&x, false)
+            }
             _ => {
                 let x = self.place_var(lhs)?;
                 let var = self.lookup(&x).unwrap().1.clone();
@@ -972,7 +1349,23 @@ impl<'a> Fx<'a> {
             Stmt::Expr(e, _) => self.expr_stmt(e),
             Stmt::Macro(m) => {
                 let n = path_str(&m.mac.path);
-                if n == "debug_assert" { self.emit(St::Comment(format!("debug_assert!({}) not translated", m.mac.tokens.to_string().chars().take(60).collect::<String>()))); self.notes.push("a debug_assert! is not translated (release semantics)".into()); Ok(()) }
+                if n == "debug_assert" {
+                    // the asserted condition becomes a component of the result (as in the model)
+                    let args: Vec<Expr> = m.mac.parse_body_with(punctuated::Punctuated::<Expr, Token![,]>::parse_terminated).map_err(|e| format!("debug_assert!: {}", e))?.into_iter().collect();
+                    if args.is_empty() { return Err("empty debug_assert!".into()); }
+                    let saved = std::mem::take(&mut self.assert_flags);
+                    self.in_assert = true;
+                    let v = self.expr(&args[0], Some(&Ty::Bool));
+                    self.in_assert = false;
+                    let fl = std::mem::replace(&mut self.assert_flags, saved);
+                    let v = v?;
+                    if v.ty != Ty::Bool { return Err("debug_assert! of a non-bool".into()); }
+                    let d = self.fresh("dbg");
+                    let text = if fl.is_empty() { v.s } else { format!("({} && {})", fl.join(" && "), v.s) };
+                    self.emit(St::Let(d.clone(), text));
+                    self.dbg.push(d);
+                    Ok(())
+                }
                 else { self.macro_expr(&m.mac).map(|_| ()) }
             }
             _ => Err(format!("unsupported statement {}", short(st))),
@@ -994,7 +1387,16 @@ impl<'a> Fx<'a> {
                 self.emit_block(sts, &muts)
             }
             Expr::MethodCall(_) | Expr::Call(_) | Expr::Macro(_) => self.expr(e, None).map(|_| ()),
-            Expr::Return(_) => Err("`return` in a non-tail position".into()),
+            Expr::Return(r) => {
+                // `return None` inside a block of a function returning Option: the block evaluates to `none`
+                let is_none = matches!(r.expr.as_deref().map(strip), Some(Expr::Path(p)) if path_str(&p.path) == "None");
+                if is_none && matches!(self.ret, Ty::Opt(_)) && !self.partial && !self.panics && self.recv != Recv::RefMut && self.mut_params.is_empty() && !self.has_dbg {
+                    self.retnone = true;
+                    self.emit(St::Abort);
+                    Ok(())
+                } else { Err("`return` in a non-tail position".into()) }
+            }
+            Expr::Match(m) => self.match_stmt(m),
             _ => Err(format!("unsupported statement {}", short(e))),
         }
     }
@@ -1021,10 +1423,12 @@ impl<'a> Fx<'a> {
         let muts: BTreeSet<String> = ma.union(&mb).cloned().collect();
         if muts.is_empty() { if Self::is_partial(&sa) || Self::is_partial(&sb) { return Err("partial call in an `if` without effect".into()); } return Ok(()); }
         let pat = tuple_of(&self.ordered(&muts).iter().map(|m| ident(m)).collect::<Vec<_>>());
-        let partial = Self::is_partial(&sa) || Self::is_partial(&sb);
-        let fin = if partial { format!("some {}", pat) } else { pat.clone() };
+        let mut both = sa.clone(); both.extend(sb.iter().cloned());
+        let eff = eff_of(&both)?;
+        let partial = eff.is_some();
+        let fin = eff_ret(eff, &pat);
         let text = format!("if {} then\n{}\nelse\n{}", c, indent(&render(&sa, &fin), 2), indent(&render(&sb, &fin), 2));
-        if partial { self.emit(St::Bind(pat, text)); } else { self.emit(St::Let(pat, text)); }
+        if partial { self.emit(St::Bind(pat, text, eff.unwrap())); } else { self.emit(St::Let(pat, text)); }
         for m in &muts { self.rebind_mark(m, true)?; }
         Ok(())
     }
@@ -1040,8 +1444,8 @@ impl<'a> Fx<'a> {
                 let l = self.expr(lo, Some(&Ty::Usize))?;
                 let h = self.expr(hi, Some(&Ty::Usize))?;
                 match (l.k, h.k) {
-                    (Some(a), Some(b)) => Ok(IterSpec::Static((a..b.max(a)).map(|v| SeqItem { enum_idx: None, val: v }).collect(), None)),
-                    (Some(0), None) => { if !h.ty.is_int() { return Err("range bound".into()); } Ok(IterSpec::Dynamic { hi: h, rev: false }) }
+                    (Some(a), Some(b)) => Ok(IterSpec::Static((a..b.max(a)).map(|v| SeqItem { enum_idx: None, val: v, val2: None }).collect(), None)),
+                    (Some(0), None) => { if !h.ty.is_int() { return Err("range bound".into()); } Ok(IterSpec::Dynamic { list: format!("(List.range {})", paren(&h.s)), elem: Ty::Usize }) }
                     _ => Err(format!("range {}", short(e))),
                 }
             }
@@ -1052,11 +1456,11 @@ impl<'a> Fx<'a> {
                     ("iter", 0) => {
                         let v = self.expr(&m.receiver, None)?;
                         let Ty::Limbs(n) = v.ty else { return Err(format!("iter() on {:?}", v.ty)) };
-                        Ok(IterSpec::Static((0..n as u128).map(|v| SeqItem { enum_idx: None, val: v }).collect(), Some((v.s, n as u128))))
+                        Ok(IterSpec::Static((0..n as u128).map(|v| SeqItem { enum_idx: None, val: v, val2: None }).collect(), Some((v.s, n as u128))))
                     }
                     ("rev", 0) => match self.iter_seq(&m.receiver)? {
                         IterSpec::Static(mut v, s) => { v.reverse(); Ok(IterSpec::Static(v, s)) }
-                        IterSpec::Dynamic { hi, rev } => Ok(IterSpec::Dynamic { hi, rev: !rev }),
+                        IterSpec::Dynamic { list, elem } => Ok(IterSpec::Dynamic { list: format!("(List.reverse {})", list), elem }),
                         IterSpec::Zip => Err("rev of a zipped fold".into()),
                     },
                     ("enumerate", 0) => match self.iter_seq(&m.receiver)? {
@@ -1070,7 +1474,51 @@ impl<'a> Fx<'a> {
                             _ => Err("take/skip over a dynamic range".into()),
                         }
                     }
-                    _ => Err(format!("iterator adaptor {}", name)),
+                    ("zip", 1) => {
+                        let a = self.iter_seq(&m.receiver)?;
+                        let b = self.iter_seq(&m.args[0])?;
+                        match (a, b) {
+                            (IterSpec::Static(x, None), IterSpec::Static(y, None)) => {
+                                if x.iter().chain(y.iter()).any(|i| i.enum_idx.is_some() || i.val2.is_some()) { return Err("zip of enumerated / zipped sequences".into()); }
+                                Ok(IterSpec::Static(x.iter().zip(y.iter()).map(|(p, q)| SeqItem { enum_idx: None, val: p.val, val2: Some(q.val) }).collect(), None))
+                            }
+                            _ => Err("zip of non-literal sequences".into()),
+                        }
+                    }
+                    ("map", 1) => {
+                        // (a..b).map(|i| <constant expression in i>)
+                        let Expr::Closure(cl) = &m.args[0] else { return Err("map with a non-closure".into()) };
+                        if cl.inputs.len() != 1 { return Err("map closure arity".into()); }
+                        let (pn, _) = self.pat_names(&cl.inputs[0])?;
+                        match self.iter_seq(&m.receiver)? {
+                            IterSpec::Static(v, None) => {
+                                let mut out = vec![];
+                                for it in v {
+                                    if it.enum_idx.is_some() || it.val2.is_some() { return Err("map over pairs".into()); }
+                                    self.scopes.push(Scope::default());
+                                    if pn[0].0 != "_" { self.declare(&pn[0].0, Var { ty: Ty::Usize, kind: Kind::Const(it.val), bound: Some(it.val), view_of: None, mutable: false, id: 0, kc: None }); }
+                                    let n0 = self.bufs.last().map(|b| b.len()).unwrap_or(0);
+                                    let r = self.expr(&cl.body, Some(&Ty::Usize));
+                                    self.scopes.pop();
+                                    let r = r?;
+                                    if self.bufs.last().map(|b| b.len()).unwrap_or(0) != n0 { return Err("effect in an iterator map".into()); }
+                                    out.push(SeqItem { enum_idx: None, val: r.k.ok_or("iterator map with a non-constant body")?, val2: None });
+                                }
+                                Ok(IterSpec::Static(out, None))
+                            }
+                            _ => Err("map over a non-literal range".into()),
+                        }
+                    }
+                    ("chars", 0) => {
+                        let v = self.expr(&m.receiver, None)?;
+                        if v.ty != Ty::Chars { return Err("chars() on a non-str".into()); }
+                        Ok(IterSpec::Dynamic { list: v.s, elem: Ty::Char })
+                    }
+                    _ => {
+                        // an iterator-valued call, translated as the list it yields
+                        let v = self.expr(e, None)?;
+                        match v.ty { Ty::BoolList => Ok(IterSpec::Dynamic { list: v.s, elem: Ty::Bool }), _ => Err(format!("iterator adaptor {}", name)) }
+                    }
                 }
             }
             _ => Err(format!("loop iterator {}", short(e))),
@@ -1094,6 +1542,14 @@ impl<'a> Fx<'a> {
                                 if names.len() != 2 { return Err("enumerate() needs a pair pattern".into()); }
                                 let n = &ns.next().unwrap().0;
                                 if n != "_" { fx.declare(n, Var { ty: Ty::Usize, kind: Kind::Const(k), bound: Some(k), view_of: None, mutable: false, id: 0, kc: None }); label_ref.push(format!("{} = {}", n, k)); }
+                            } else if let Some(v2) = it.val2 {
+                                if names.len() != 2 { return Err("zip needs a pair pattern".into()); }
+                                let n = &ns.next().unwrap().0;
+                                if n != "_" { fx.declare(n, Var { ty: Ty::Usize, kind: Kind::Const(it.val), bound: Some(it.val), view_of: None, mutable: false, id: 0, kc: None }); label_ref.push(format!("{} = {}", n, it.val)); }
+                                let n = &ns.next().unwrap().0;
+                                if n != "_" { fx.declare(n, Var { ty: Ty::Usize, kind: Kind::Const(v2), bound: Some(v2), view_of: None, mutable: false, id: 0, kc: None }); label_ref.push(format!("{} = {}", n, v2)); }
+                                for s in &f.body.stmts { fx.stmt(s)?; }
+                                return Ok(());
                             } else if names.len() != 1 { return Err("loop pattern".into()); }
                             let n = &ns.next().unwrap().0;
                             match &src {
@@ -1112,12 +1568,27 @@ impl<'a> Fx<'a> {
                 }
                 Ok(())
             }
-            IterSpec::Dynamic { hi, rev } => {
+            IterSpec::Dynamic { list, elem } => {
                 if names.len() != 1 { return Err("loop pattern".into()); }
-                let saved = (std::mem::take(&mut self.facts), std::mem::take(&mut self.conds));
                 let n = names[0].0.clone();
+                // dry run: which variables does the body assign?  facts about them do not hold at the loop head
+                let pre_muts = {
+                    let snap = self.clone();
+                    self.facts.clear(); self.conds.clear();
+                    let el = elem.clone(); let n2 = n.clone();
+                    let r = self.sub_block_raw(|fx| {
+                        if n2 != "_" { fx.declare(&n2, Self::plain(el, false)); }
+                        for s in &f.body.stmts { fx.stmt(s)?; }
+                        Ok(())
+                    });
+                    *self = snap;
+                    r?.1
+                };
+                let saved = (self.facts.clone(), self.conds.clone());
+                for m in &pre_muts { self.forget(m); }
+                let el = elem.clone();
                 let r = self.sub_block_raw(|fx| {
-                    if n != "_" { fx.declare(&n, Self::plain(Ty::Usize, false)); }
+                    if n != "_" { fx.declare(&n, Self::plain(el, false)); }
                     for s in &f.body.stmts { fx.stmt(s)?; }
                     Ok(())
                 });
@@ -1129,17 +1600,36 @@ impl<'a> Fx<'a> {
                 let tys: Vec<String> = om.iter().map(|m| self.lookup(m).unwrap().1.ty.lean()).collect();
                 let pat = tuple_of(&mnames);
                 let ty = if tys.len() == 1 { tys[0].clone() } else { format!("({})", tys.join(" × ")) };
-                let range = if rev { format!("(List.range {}).reverse", paren(&hi.s)) } else { format!("(List.range {})", paren(&hi.s)) };
                 let iv = if n == "_" { "_".to_string() } else { ident(&n) };
-                if Self::is_partial(&sts) {
-                    let body = render(&sts, &format!("some {}", pat));
-                    let text = format!("List.foldl (fun (st : Option {}) ({} : Nat) =>\n  Option.bind st (fun {} =>\n{})) (some {}) {}", paren(&ty), iv, pat, indent(&body, 4), pat, range);
-                    self.emit(St::Bind(pat, text));
-                } else {
-                    let body = render(&sts, &pat);
-                    let text = format!("List.foldl (fun ({} : {}) ({} : Nat) =>\n{}) {} {}", pat, ty, iv, indent(&body, 2), pat, range);
-                    self.emit(St::Let(pat, text));
+                let eff = eff_of(&sts)?;
+                // the loop body becomes a named definition over its free variables
+                let ws = words(&render(&sts, ""));
+                let mut frees: BTreeSet<String> = BTreeSet::new();
+                for sc in &self.scopes { for (vn, v) in &sc.vars { if matches!(v.kind, Kind::Plain) && ws.contains(&ident(vn)) && !muts.contains(vn) && *vn != n { frees.insert(vn.clone()); } } }
+                let mut params: Vec<(String, String)> = vec![];
+                if self.p_arg.as_deref() == Some("P") && ws.contains("P") { params.push(("P".into(), "MontParams".into())); }
+                for v in &self.ordered(&frees) { params.push((ident(v), self.lookup(v).unwrap().1.ty.lean())); }
+                self.for_count += 1;
+                let name = format!("{}.for{}", self.lean_name, self.for_count);
+                let binders = params.iter().map(|p| format!("({} : {})", p.0, p.1)).collect::<Vec<_>>().join(" ");
+                let args = params.iter().map(|p| p.0.clone()).collect::<Vec<_>>().join(" ");
+                let mut d = String::new();
+                writeln!(d, "/-- body of `for` loop #{} of `{}` (state: the variables it assigns) -/", self.for_count, self.key).unwrap();
+                match eff {
+                    None => {
+                        let body = render(&sts, &pat);
+                        writeln!(d, "def {} {} : {} → {} → {} :=\n  fun ({} : {}) ({} : {}) =>\n{}\n", name, binders, paren(&ty), elem.lean(), paren(&ty), pat, ty, iv, elem.lean(), indent(&body, 4)).unwrap();
+                        self.emit(St::Let(pat.clone(), format!("List.foldl (fun st x => {} {} st x) {} {}", name, args, pat, paren(&list))));
+                    }
+                    Some(k) => {
+                        let (m, unit) = if k { ("Outcome", "Outcome.ok") } else { ("Option", "some") };
+                        let body = render(&sts, &eff_ret(eff, &pat));
+                        writeln!(d, "def {} {} : {} {} → {} → {} {} :=\n  fun (st : {} {}) ({} : {}) =>\n    {}.bind st (fun {} =>\n{})\n", name, binders, m, paren(&ty), elem.lean(), m, paren(&ty), m, paren(&ty), iv, elem.lean(), m, pat, indent(&body, 6)).unwrap();
+                        self.emit(St::Bind(pat.clone(), format!("List.foldl (fun st x => {} {} st x) ({} {}) {}", name, args, unit, pat, paren(&list)), k));
+                    }
                 }
+                self.aux_defs.push_str(&d);
+                self.aux_names.push(format!("{} {}", name, binders));
                 for m in &muts { self.rebind_mark(m, true)?; }
                 Ok(())
             }
@@ -1195,7 +1685,8 @@ impl<'a> Fx<'a> {
         writeln!(d, "  | fuel + 1, {} =>\n{}\n", argnames.join(", "), indent(&inner, 4)).unwrap();
         self.aux_defs.push_str(&d);
         self.aux_names.push(format!("{} {}", name, params.iter().map(|p| format!("({} : {})", p.0, p.1)).collect::<Vec<_>>().join(" ")));
-        self.emit(St::Bind(pat, format!("{} {} {}", name, fuel, argnames.join(" "))));
+        if eff_of(&sts)? == Some(true) { return Err("panic inside a while loop".into()); }
+        self.emit(St::Bind(pat, format!("{} {} {}", name, fuel, argnames.join(" ")), false));
         for m in &muts { self.rebind_mark(m, true)?; }
         Ok(())
     }
@@ -1281,8 +1772,10 @@ impl<'a> Fx<'a> {
         if self.recv == Recv::RefMut { parts.push("self".into()); }
         for p in &self.mut_params { parts.push(ident(p)); }
         if let Some(v) = v { parts.push(v.s.clone()); }
+        if self.has_dbg { parts.push(if self.dbg.is_empty() { "true".to_string() } else { format!("({})", self.dbg.join(" && ")) }); }
         let t = if parts.is_empty() { "()".to_string() } else { tuple_of(&parts) };
-        if self.partial { format!("some {}", paren(&t)) } else { t }
+        if self.retnone { return t; }
+        if self.partial { format!("some {}", paren(&t)) } else if self.panics { format!("Outcome.ok {}", paren(&t)) } else { t }
     }
 
     fn ends_in_return(b: &Block) -> bool { matches!(b.stmts.last(), Some(Stmt::Expr(Expr::Return(_), _))) }
@@ -1293,7 +1786,13 @@ impl<'a> Fx<'a> {
         let r = self.tail_inner(stmts);
         let sts = self.bufs.pop().unwrap();
         let fin = r?;
-        if Self::is_partial(&sts) && !self.partial { return Err("__needs_partial".into()); }
+        match eff_of(&sts)? {
+            Some(false) if !self.partial && !self.retnone => return Err("__needs_partial".into()),
+            Some(true) if !self.panics => return Err("__needs_panic".into()),
+            Some(false) if self.panics => return Err("fuel and panic effects in one function".into()),
+            Some(true) if self.partial || self.retnone => return Err("fuel and panic effects in one function".into()),
+            _ => {}
+        }
         Ok(render(&sts, &fin))
     }
     fn branch_tail(&mut self, stmts: &[Stmt], cond: Option<String>) -> R<String> {
@@ -1322,6 +1821,9 @@ impl<'a> Fx<'a> {
                 Stmt::Expr(Expr::If(i), None) if last && i.else_branch.is_some() && self.ret != Ty::Unit => {
                     return self.tail_if(i);
                 }
+                Stmt::Expr(Expr::Match(m), None) if last && self.ret != Ty::Unit => {
+                    return self.tail_match(m);
+                }
                 Stmt::Expr(e, None) if last && self.ret != Ty::Unit => {
                     let rt = self.ret.clone();
                     let v = self.expr(e, Some(&rt))?;
@@ -1341,6 +1843,69 @@ impl<'a> Fx<'a> {
             (Ty::Tuple(x), Ty::Tuple(y)) => x.len() == y.len() && x.iter().zip(y.iter()).all(|(p, q)| self.ret_compatible(p, q)),
             _ => self.unify(a, b).is_ok(),
         }
+    }
+    /// arms of a `match` on an Option / Result: (Lean pattern, bound variable, body)
+    fn option_arms<'b>(&self, m: &'b ExprMatch) -> R<Vec<(String, Option<String>, &'b Expr)>> {
+        let mut v = vec![];
+        for arm in &m.arms {
+            if arm.guard.is_some() { return Err("match guard".into()); }
+            match &arm.pat {
+                Pat::TupleStruct(ts) if matches!(path_str(&ts.path).as_str(), "Some" | "Ok") && ts.elems.len() == 1 => {
+                    match &ts.elems[0] { Pat::Ident(i) => v.push((format!("some {}", ident(&i.ident.to_string())), Some(i.ident.to_string()), &*arm.body)), Pat::Wild(_) => v.push(("some _".into(), None, &*arm.body)), _ => return Err("match pattern".into()) }
+                }
+                Pat::TupleStruct(ts) if path_str(&ts.path) == "Err" => v.push(("none".into(), None, &*arm.body)),
+                Pat::Ident(i) if i.ident == "None" => v.push(("none".into(), None, &*arm.body)),
+                Pat::Path(p) if path_str(&p.path) == "None" => v.push(("none".into(), None, &*arm.body)),
+                _ => return Err(format!("match pattern {}", short(&arm.pat))),
+            }
+        }
+        if v.len() != 2 || v.iter().filter(|a| a.0 == "none").count() != 1 { return Err("match on an Option needs one `Some`/`Ok` and one `None`/`Err` arm".into()); }
+        Ok(v)
+    }
+    fn tail_match(&mut self, m: &ExprMatch) -> R<String> {
+        let sc = self.expr(&m.expr, None)?;
+        let Ty::Opt(inner) = sc.ty.clone() else { return Err(format!("match on {:?}", sc.ty)) };
+        let arms = self.option_arms(m)?;
+        let mut text = format!("match {} with", sc.s);
+        for (pat, var, body) in arms {
+            self.scopes.push(Scope::default());
+            if let Some(v) = &var { self.declare(v, Self::plain((*inner).clone(), false)); }
+            let stmts: Vec<Stmt> = match body { Expr::Block(b) => b.block.stmts.clone(), e => vec![Stmt::Expr(e.clone(), None)] };
+            let r = self.tail(&stmts);
+            self.scopes.pop();
+            let d = self.scopes.len(); self.facts.retain(|f| f.0 <= d); self.conds.retain(|f| f.0 <= d);
+            write!(text, "\n| {} =>\n{}", pat, indent(&r?, 2)).unwrap();
+        }
+        Ok(text)
+    }
+    fn match_stmt(&mut self, m: &ExprMatch) -> R<()> {
+        let sc = self.expr(&m.expr, None)?;
+        let Ty::Opt(inner) = sc.ty.clone() else { return Err(format!("match on {:?}", sc.ty)) };
+        let arms = self.option_arms(m)?;
+        let mut blocks = vec![];
+        let mut muts: BTreeSet<String> = BTreeSet::new();
+        let mut all: Vec<St> = vec![];
+        for (pat, var, body) in arms {
+            let inner2 = (*inner).clone();
+            let (sts, mu) = self.sub_block_raw(|fx| {
+                if let Some(v) = &var { fx.declare(v, Self::plain(inner2, false)); }
+                if !sc.s.contains('\n') { let d = fx.scopes.len(); fx.conds.push((d, match &var { Some(v) => format!("{} = some {}", sc.s, ident(v)), None if pat == "none" => format!("{} = none", sc.s), None => format!("Option.isSome {} = true", sc.s) })); }
+                match body { Expr::Block(b) => { for s in &b.block.stmts { fx.stmt(s)?; } Ok(()) } e => fx.expr_stmt(e) }
+            })?;
+            muts.extend(mu.iter().cloned());
+            all.extend(sts.iter().cloned());
+            blocks.push((pat, sts));
+        }
+        let eff = eff_of(&all)?;
+        if muts.is_empty() && eff.is_none() { return Ok(()); }
+        let pat = if muts.is_empty() { "()".to_string() } else { tuple_of(&self.ordered(&muts).iter().map(|x| ident(x)).collect::<Vec<_>>()) };
+        let fin = eff_ret(eff, &pat);
+        let mut text = format!("match {} with", sc.s);
+        for (p, sts) in &blocks { write!(text, "\n| {} =>\n{}", p, indent(&render(sts, &fin), 2)).unwrap(); }
+        let lp = if muts.is_empty() { "_".to_string() } else { pat };
+        match eff { Some(k) => self.emit(St::Bind(lp, text, k)), None => self.emit(St::Let(lp, text)) }
+        for x in &muts { self.rebind_mark(x, true)?; }
+        Ok(())
     }
     fn tail_if(&mut self, i: &ExprIf) -> R<String> {
         if matches!(&*i.cond, Expr::Let(_)) { return Err("if-let".into()); }
@@ -1388,7 +1953,7 @@ fn model_fallback(key: &str) -> Option<(&'static str, bool, bool)> {
 
 fn big_sig(name: &str, recv: Recv, self_ty: Ty, params: Vec<(&str, Ty)>, ret: Ty, lean: &str) -> ((String, String), FnSig) {
     let tk = tykey(&self_ty).to_string();
-    ((tk.clone(), name.to_string()), FnSig { lean: lean.to_string(), key: format!("{}.{}", tk, name), recv, self_ty, params: params.into_iter().map(|(n, t)| (n.to_string(), t, false)).collect(), ret, partial: false, fuel_param: false, takes_p: false, translated: false })
+    ((tk.clone(), name.to_string()), FnSig { lean: lean.to_string(), key: format!("{}.{}", tk, name), recv, self_ty, params: params.into_iter().map(|(n, t)| (n.to_string(), t, false)).collect(), ret, partial: false, panics: false, has_dbg: false, fuel_param: false, takes_p: false, translated: false })
 }
 
 fn builtin_sigs() -> HashMap<(String, String), FnSig> {
@@ -1457,22 +2022,43 @@ fn sig_of(fx: &Fx, t: &Target) -> R<FnSig> {
         }
     }
     let ret = match &m.sig.output { ReturnType::Default => Ty::Unit, ReturnType::Type(_, ty) => fx.ty_of(ty)? };
-    Ok(FnSig { lean: String::new(), key: t.key.clone(), recv, self_ty: t.self_ty.clone(), params, ret, partial: false, fuel_param: false, takes_p: t.takes_p, translated: false })
+    for p in &m.sig.generics.params {
+        match p {
+            GenericParam::Const(c) if Some(c.ident.to_string()) == t.generic => {}
+            GenericParam::Type(tp) if fx.generic_tys.as_ref().map(|g| g.contains_key(&tp.ident.to_string())).unwrap_or(false) => {}
+            GenericParam::Lifetime(_) => {}
+            _ => return Err("generic function".into()),
+        }
+    }
+    let has_dbg = { let b = &m.block; quote!(#b).to_string().contains("debug_assert") };
+    Ok(FnSig { lean: String::new(), key: t.key.clone(), recv, self_ty: t.self_ty.clone(), params, ret, partial: false, panics: false, has_dbg, fuel_param: false, takes_p: t.takes_p, translated: false })
 }
 
 fn new_fx<'a>(g: &'a Global, t: &Target, partial: bool) -> Fx<'a> {
-    Fx { g, key: t.key.clone(), lean_name: t.lean.clone(), scopes: vec![Scope::default()], bufs: vec![], fresh: 0, self_ty: t.self_ty.clone(), recv: Recv::None, ret: Ty::Unit, mut_params: vec![], p_arg: t.p_arg.clone(), in_macro: t.in_macro, partial, facts: vec![], conds: vec![], obligations: vec![], aux_defs: String::new(), aux_names: vec![], fuels: fuels_of(&t.key), loop_count: 0, notes: vec![], zip_generic: t.generic.clone(), next_id: 0, calls: BTreeSet::new() }
+    // type parameters: `R: Rng` is a script of drawn u64s; `I: Into<U256>` is monomorphised at the field type
+    let mut gt: HashMap<String, Ty> = HashMap::new();
+    for p in &t.item.sig.generics.params {
+        if let GenericParam::Type(tp) = p {
+            let b = quote!(#tp).to_string().replace(' ', "");
+            if b.contains("Rng") { gt.insert(tp.ident.to_string(), Ty::Rng); } else if b.contains("Into<U256>") { gt.insert(tp.ident.to_string(), Ty::Fp); }
+        }
+    }
+    let mut fx = Fx { g, key: t.key.clone(), lean_name: t.lean.clone(), scopes: vec![Scope::default()], bufs: vec![], fresh: 0, self_ty: t.self_ty.clone(), recv: Recv::None, ret: Ty::Unit, mut_params: vec![], p_arg: t.p_arg.clone(), in_macro: t.in_macro, partial, panics: false, dbg: vec![], in_assert: false, assert_flags: vec![], unwrapped: HashMap::new(), payload_mutated: BTreeSet::new(), pre: vec![], for_count: 0, generic_tys: None, retnone: false, has_dbg: false, facts: vec![], conds: vec![], obligations: vec![], aux_defs: String::new(), aux_names: vec![], fuels: fuels_of(&t.key), loop_count: 0, notes: vec![], zip_generic: t.generic.clone(), next_id: 0, calls: BTreeSet::new() };
+    if !gt.is_empty() { fx.generic_tys = Some(gt); }
+    fx
 }
 
 struct Done { calls: Vec<String>, def: String, sig: FnSig, params: Vec<(String, String)>, ret: String, obligations: Vec<Obligation>, aux: Vec<String>, notes: Vec<String> }
 
-fn translate(g: &Global, t: &Target, partial: bool) -> R<Done> {
+fn translate(g: &Global, t: &Target, eff: Option<bool>) -> R<Done> {
+    let partial = eff == Some(false);
     let mut fx = new_fx(g, t, partial);
+    fx.panics = eff == Some(true);
     let mut sig = sig_of(&fx, t)?;
     fx.recv = sig.recv.clone();
     fx.ret = sig.ret.clone();
+    fx.has_dbg = sig.has_dbg;
     let m = &t.item;
-    if m.sig.generics.params.iter().any(|p| !matches!(p, GenericParam::Const(c) if Some(c.ident.to_string()) == t.generic)) { return Err("generic function".into()); }
     let mut lparams: Vec<(String, String)> = vec![];
     let fuels = fuels_of(&t.key);
     if fuels.iter().any(|f| f == "fuel") { lparams.push(("fuel".into(), "Nat".into())); sig.fuel_param = true; }
@@ -1499,12 +2085,14 @@ fn translate(g: &Global, t: &Target, partial: bool) -> R<Done> {
     for (_, ty, is_mut) in &sig.params { if *is_mut { comps.push(ty.lean()); } }
     if sig.ret != Ty::Unit { comps.push(sig.ret.lean()); }
     let mut ret = if comps.is_empty() { "Unit".to_string() } else { comps.join(" × ") };
-    if partial { ret = format!("Option {}", paren(&format!("({})", ret)).trim().to_string()); if comps.len() == 1 { ret = format!("Option {}", paren(&comps[0])); } }
+    if sig.has_dbg { comps.push("Bool".into()); ret = comps.join(" × "); }
+    if partial || fx.panics { let m = if partial { "Option" } else { "Outcome" }; ret = if comps.len() == 1 { format!("{} {}", m, paren(&comps[0])) } else { format!("{} ({})", m, ret) }; }
     let mut def = String::new();
     def.push_str(&fx.aux_defs);
     writeln!(def, "/-- `{}` -/", t.key).unwrap();
     writeln!(def, "def {} {} : {} :=\n{}\n", t.lean, lparams.iter().map(|p| format!("({} : {})", p.0, p.1)).collect::<Vec<_>>().join(" "), ret, indent(&body, 2)).unwrap();
     sig.partial = partial;
+    sig.panics = fx.panics;
     sig.translated = true;
     sig.lean = format!("Sm9.Gen.L.{}", t.lean);
     Ok(Done { calls: fx.calls.iter().cloned().collect(), def, sig, params: lparams, ret, obligations: fx.obligations, aux: fx.aux_names, notes: fx.notes })
@@ -1528,10 +2116,12 @@ fn collect_impl_fns(items: &[Item], out: &mut Vec<Target>, in_macro: bool) {
             let (ns, tk, self_ty, p_arg, takes_p, lname) = match (sn.as_str(), in_macro, tr.as_deref()) {
                 ("U256", false, None) => ("U256", "U256", Ty::U256, None, false, name.clone()),
                 ("U512", false, None) => ("U512", "U512", Ty::U512, None, false, name.clone()),
+                ("BitIterator", false, Some(t)) if t == "Iterator" && name == "next" => ("BitIterator", "BitIterator", Ty::BitIter, None, false, name.clone()),
                 ("U256", true, Some(t)) if t.starts_with("From<") && name == "from" => ("Fp", "Fp", Ty::U256, Some("P".to_string()), true, "into_u256".to_string()),
                 ("Fp", true, None) => ("Fp", "Fp", Ty::Fp, Some("P".to_string()), true, name.clone()),
                 ("Fp", true, Some(t)) if matches!(t, "Zero" | "One" | "FieldElement") => ("Fp", "Fp", Ty::Fp, Some("P".to_string()), true, name.clone()),
                 ("Fq", false, None) => ("Fq", "Fp", Ty::Fp, Some("Fq.P".to_string()), false, name.clone()),
+                ("Fr", false, None) => ("Fr", "Fp", Ty::Fp, Some("Fr.P".to_string()), false, name.clone()),
                 _ => continue,
             };
             out.push(Target { key: format!("{}.{}", ns, lname), lean: format!("{}.{}", ns, ident(&lname)), tk: tk.to_string(), self_ty, in_macro, p_arg, takes_p, item: m.clone(), generic });
@@ -1542,9 +2132,11 @@ fn collect_impl_fns(items: &[Item], out: &mut Vec<Target>, in_macro: bool) {
 fn order_targets(mut ts: Vec<Target>) -> Vec<Target> {
     const ORDER: &[&str] = &["Arith.adc", "Arith.sbb", "Arith.mac", "Arith.mac_discard", "Arith.mac_with_carry_macro", "Arith.adc_macro",
         "U256.zero", "U256.is_zero", "U256.one", "U256.is_one", "U256.is_even", "U256.is_odd", "U256.set_bit", "U256.get_bit", "U256.subtract_modulus_with_carry", "U256.add_carry", "U256.add", "U256.sub", "U256.mul2", "U256.div2", "U256.neg", "U256.mul_without_cond_subtract", "U256.mul", "U256.square", "U256.invert",
-        "U512.new", "U512.bit_length", "U512.get_bit", "U512.divrem",
+        "U256.from_slice", "U256.to_big_endian", "BitIterator.next", "U256.bits", "U256.bits_without_leading_zeros",
+        "U512.from_slice", "U512.new", "U512.bit_length", "U512.get_bit", "U512.divrem", "U512.interpret", "U512.random", "U256.random",
         "Fp.into_u256", "Fp.zero", "Fp.is_zero", "Fp.one", "Fp.is_one", "Fp.new", "Fp.new_mul_factor", "Fp.add_inplace", "Fp.sub_inplace", "Fp.mul_inplace", "Fp.neg_inplace", "Fp.inverse", "Fp.double", "Fp.triple", "Fp.squared", "Fp.set_bit", "Fp.modulus",
-        "Fq.div2", "Fq.sqrt", "Fq.sum_of_products"];
+        "Fp.from_slice", "Fp.to_slice", "Fp.interpret", "Fp.from_str", "Fp.random", "Fp.pow",
+        "Fq.div2", "Fq.sqrt", "Fq.sum_of_products", "Fr.from_hash"];
     let pos = |k: &str| ORDER.iter().position(|o| *o == k).unwrap_or(ORDER.len());
     ts.sort_by_key(|t| pos(&t.key)); // stable: the rest keeps source order
     ts
@@ -1623,6 +2215,24 @@ pub fn run(src_dir: &str, out_dir: &str) -> (usize, usize) {
             collect_impl_fns(&file.items, &mut targets, false);
         }
     }
+    match read("fields.rs") {
+        Err(e) => { report.insert("fields.rs::<file>".into(), e); }
+        Ok(file) => for it in &file.items {
+            if let Item::Trait(tr) = it {
+                if tr.ident != "FieldElement" { continue; }
+                for ti in &tr.items {
+                    if let TraitItem::Fn(tf) = ti {
+                        if tf.sig.ident == "pow" {
+                            if let Some(b) = &tf.default {
+                                let m = ImplItemFn { attrs: vec![], vis: Visibility::Inherited, defaultness: None, sig: tf.sig.clone(), block: b.clone() };
+                                targets.push(Target { key: "Fp.pow".into(), lean: "Fp.pow".into(), tk: "Fp".into(), self_ty: Ty::Fp, in_macro: true, p_arg: Some("P".into()), takes_p: true, item: m, generic: None });
+                            }
+                        }
+                    }
+                }
+            }
+        },
+    }
     let targets = order_targets(targets);
     // ---- signatures of everything (so that calls type-check even when the callee is skipped)
     let mut g = Global { sigs: builtin_sigs() };
@@ -1640,21 +2250,21 @@ pub fn run(src_dir: &str, out_dir: &str) -> (usize, usize) {
     let mut meta: Vec<String> = vec![];
     let mut obls: Vec<String> = vec![];
     for t in &targets {
-        let r = match translate(&g, t, false) { Err(e) if e == "__needs_partial" => translate(&g, t, true), o => o };
+        let r = match translate(&g, t, None) { Err(e) if e == "__needs_partial" => translate(&g, t, Some(false)), Err(e) if e == "__needs_panic" => translate(&g, t, Some(true)), o => o };
         match r {
             Ok(d) => {
                 defs.push_str(&d.def);
                 report.insert(t.key.clone(), "translated".into());
                 if t.tk != "macro" { let name = t.key.split('.').nth(1).unwrap().to_string(); g.sigs.insert((t.tk.clone(), name), d.sig.clone()); }
-                meta.push(format!("    {{\"key\": {}, \"lean\": {}, \"params\": [{}], \"ret\": {}, \"partial\": {}, \"aux\": [{}], \"notes\": [{}], \"calls\": [{}]}}", jstr(&t.key), jstr(&d.sig.lean),
-                    d.params.iter().map(|p| format!("[{}, {}]", jstr(&p.0), jstr(&p.1))).collect::<Vec<_>>().join(", "), jstr(&d.ret), d.sig.partial,
+                meta.push(format!("    {{\"key\": {}, \"lean\": {}, \"params\": [{}], \"ret\": {}, \"partial\": {}, \"panics\": {}, \"has_dbg\": {}, \"aux\": [{}], \"notes\": [{}], \"calls\": [{}]}}", jstr(&t.key), jstr(&d.sig.lean),
+                    d.params.iter().map(|p| format!("[{}, {}]", jstr(&p.0), jstr(&p.1))).collect::<Vec<_>>().join(", "), jstr(&d.ret), d.sig.partial, d.sig.panics, d.sig.has_dbg,
                     d.aux.iter().map(|a| jstr(a)).collect::<Vec<_>>().join(", "), d.notes.iter().map(|a| jstr(a)).collect::<Vec<_>>().join(", "), d.calls.iter().map(|a| jstr(a)).collect::<Vec<_>>().join(", ")));
                 for o in &d.obligations { obls.push(format!("    {{\"name\": {}, \"binders\": {}, \"hyps\": [{}], \"goal\": {}}}", jstr(&o.name), jstr(&o.binders), o.hyps.iter().map(|h| jstr(h)).collect::<Vec<_>>().join(", "), jstr(&o.goal))); }
             }
             Err(e) => { report.entry(t.key.clone()).or_insert(format!("skipped: {}", e)); }
         }
     }
-    let header = "-- GENERATED by rs2lean (limb.rs) from /repo/src/{arith,u256,u512,fields/fp}.rs on every run — do not edit.\nimport Sm9.Model.Mont\nset_option linter.unusedVariables false\nnamespace Sm9.Gen.L\nopen Sm9\n\n";
+    let header = "-- GENERATED by rs2lean (limb.rs) from /repo/src/{arith,u256,u512,fields/fp}.rs on every run — do not edit.\nimport Sm9.Model.Mont\nset_option linter.unusedVariables false\nnamespace Sm9.Gen.L\nopen Sm9\n\n/-- the list an iterator yields: `next` is called until it returns `none` (at most `fuel` times) -/\ndef iterList {σ α : Type} (next : σ → σ × Option α) : Nat → σ → List α\n  | 0, _ => []\n  | fuel + 1, s => match next s with\n    | (s', some a) => a :: iterList next fuel s'\n    | (_, none) => []\n\n";
     let text = format!("{}{}{}\nend Sm9.Gen.L\n", header, params_defs, defs);
     super::write_if_changed(&format!("{}/LimbRust.lean", out_dir), &text);
     let mut rep = String::from("{\n");
